@@ -194,8 +194,8 @@ class Labels(Stage):
 
     def gen(self, d, tier):
         deep = d.chance(0.15)
-        prof = dict(reuse=0.9, weights=dict(deep=80, message=12, delete=5, bind=3)) if deep else dict(
-            reuse=0.75, weights=dict(delete=20, bind=12, message=42, server_event=14, deep=6, sync=6, midsession=18))
+        prof = dict(reuse=0.9, weights=dict(deep=80, message=12, delete=5, bind=3, long_line=3)) if deep else dict(
+            reuse=0.75, weights=dict(delete=20, bind=12, message=42, server_event=14, deep=6, sync=6, midsession=18, long_line=3))
         # one connection when driving an id deep, otherwise the messages spread and no id gets past letter m
         specs = histgen.history(d, nconn=1 if deep else d.int(1, 3), nmsg=d.int(64, 90) if deep else d.int(4, 36), profile=prof)
         return dict(dialect=d.choice(['new', 'old']), specs=specs)
